@@ -90,6 +90,12 @@ class Src:
         return [a for a in self.index["attrs"] if s <= a["span"][0] and a["span"][1] <= e]
 
 
+def _rx(pat):
+    """Statement anchors are written as the code is formatted today; rustfmt may break a line after
+    `=`, so a literal ` = ` in an anchor matches any whitespace around the sign."""
+    return pat.replace(" = ", r"\s*=\s*")
+
+
 def serde_signature(src, it):
     """The serde attributes of an item (whitespace-normalised, in order) and which serde derives it has."""
     sig = []
@@ -553,7 +559,7 @@ class Unit:
         text = src.text(it["start"], it["span"][1])
         sub = {}
         for nm, rx in spec.binds:
-            vals = set(m.group(1) for m in re.finditer(rx, text))
+            vals = set(m.group(1) for m in re.finditer(_rx(rx), text))
             if len(vals) != 1:
                 raise Undecided(f"lost anchor: bind {nm} of {key}: /{rx}/ matches {len(vals)} distinct names")
             sub[nm] = vals.pop()
@@ -887,7 +893,7 @@ class Unit:
         pick_first = first_rx.startswith("first:")
         after = first_rx.startswith("after:")
         first_rx = first_rx[6:] if (pick_first or after) else first_rx
-        frx, lrx = re.compile(first_rx), re.compile(last_rx)
+        frx, lrx = re.compile(_rx(first_rx)), re.compile(_rx(last_rx))
         firsts = [n for n in nodes if n["k"] == "stmt" and frx.match(src.text(*n["span"]))]
         if after:
             # the slice starts with the statement that FOLLOWS the matching one in the same block
@@ -900,7 +906,7 @@ class Unit:
             firsts = sorted(firsts, key=lambda n: n["span"][0])[:1]
         before = last_rx.startswith("before:")
         if before:
-            lrx = re.compile(last_rx[7:])
+            lrx = re.compile(_rx(last_rx[7:]))
         lasts = [n for n in nodes if n["k"] == "stmt" and lrx.match(src.text(*n["span"]))]
         if before:
             # the slice ends with the statement that PRECEDES the matching one in the same block
@@ -1037,7 +1043,7 @@ class Unit:
                 raise Undecided(f"lost anchor: loop {arg} of {key}")
             return ls[0]["body_open"] + 1 if how == "loop_begin" else ls[0]["body_close"] - 1
         if how in ("before_stmt", "after_stmt"):
-            rx = re.compile(arg.strip("/"))
+            rx = re.compile(_rx(arg.strip("/")))
             hits = [n for n in nodes if n["k"] == "stmt" and rx.match(src.text(*n["span"]))]
             if len(hits) != 1:
                 raise Undecided(f"lost anchor: stmt /{arg}/ of {key} resolves to {len(hits)} places")
